@@ -30,7 +30,7 @@ def sgn(x):
 
 def run_records(rnd, tier):
     recs = []
-    ncase = 100 if tier == "quick" else 1500
+    ncase = 240 if tier == "quick" else 2400
     for c in range(ncase):
         kind = "euler" if c % 2 == 0 else "sw"
         flux = rnd.choice(["hlle", "hllc"] if kind == "euler" else ["rusanov", "hll"])
@@ -39,7 +39,7 @@ def run_records(rnd, tier):
         n = rnd.choice([3, 10, 40, 100])
         cfl = rnd.choice([0.5, 0.45, 0.25, 0.05])
         m = fd.uniform(n, length=rnd.choice([1.0, 20.0]))
-        shape = rnd.choice(["riemann", "blocks", "random"])
+        shape = rnd.choice(["riemann", "blocks", "random", "hotlight"])
 
         def level(lo, hi):
             return 10.0 ** rnd.uniform(math.log10(lo), math.log10(hi))
@@ -51,6 +51,17 @@ def run_records(rnd, tier):
             r = prof(a * rnd.choice([1.0, 1e3]), b)
             p = prof(level(1e-3, 1.0) * rnd.choice([1.0, 1e3]), level(1e-3, 1.0))
             mach = prof(rnd.uniform(-3, 3), rnd.uniform(-3, 3))
+        elif shape == "hotlight":
+            # the largest SOUND-SPEED contrast the quantifier allows: density and pressure (depth) ratios of 200..1000 in OPPOSITE
+            # directions -- a light hot slab (or half space) moving into / away from dense cold gas at rest or in motion
+            nb = rnd.choice([2, 3, 3, 4])
+            idx = np.minimum((np.arange(n) * nb) // max(n, 1), nb - 1)
+            ratio_r, ratio_p = level(200.0, 1000.0), level(200.0, 1000.0)
+            hot = [(b_ % 2) == (c // 2) % 2 for b_ in range(nb)]
+            r = np.array([1.0 / ratio_r if h_ else 1.0 for h_ in hot])[idx]
+            p = np.array([1.0 if h_ else 1.0 / ratio_p for h_ in hot])[idx]
+            mh = rnd.choice([-1.0, 1.0]) * rnd.uniform(0.5, 3.0)
+            mach = np.array([mh if h_ else rnd.choice([0.0, 0.0, rnd.uniform(-3, 3)]) for h_ in hot])[idx]
         elif shape == "blocks":
             nb = rnd.randint(2, 5)
             idx = np.minimum((np.arange(n) * nb) // max(n, 1), nb - 1)
